@@ -43,7 +43,7 @@ Print Assumptions keyboard_interrupt_status.
 
 (* ---- the renderer hypothesis discharged: proofs in Proofs/RunTraceLemmas.v ----
    render_ok is no longer assumed: it is report_ok c o x sols simple = "ExceptionTrace.render (Model/Trace.v, render_sol)
-   returned", for the error output o, the verbosity / directories c, and - inputs, universally quantified - the exn_case x
+   returned", for the output o the report is written to (the io's standard output), the verbosity / directories c, and - inputs, universally quantified - the exn_case x
    of the raised exception (class name, message, frames with the token streams tokenize delivers for them, or the fact
    that tokenize / reading the file raised) and the solutions sols found for it.  Run.v's exn says only whether the
    exception is KeyboardInterrupt and whether it is a CliKitException (then the report is the simple one).
@@ -183,3 +183,118 @@ Example unreadable_source_report_bytes :
   render_sol (demo_cfg false) false (demo_out FPlain false 0) (demo_x [bad_frame]) [ex_s1]
   = Ok (ex_head ++ [10;32;32;97;116;32;97;46;112;121;58;49;32;105;110;32;102;10]%N ++ ex_block1).      (*   at a.py:1 in f *)
 Proof. exact ex_sol_unreadable_vm. Qed.
+
+(* ==== the WHOLE of ConsoleApplication.run: io creation, resolution, handling (Model/RunLine.v) ====
+   run_cmdline catch render_ok quiet debug io_fails rs listeners handler: io_fails = the io factory raises; rs = what
+   resolve_command gives (a value of ANY type A standing for "the command selected and the arguments parsed for it", or an
+   exception); the handler is a FUNCTION of what it is handed and every invocation is logged with its argument (l_calls).
+   run_app instantiates it with the resolver model of C03 (whose answer carries the parser model's result for the line)
+   and the io settings of C09.  Proofs: Proofs/RunLineLemmas.v, Proofs/RunLineTraceLemmas.v. *)
+From Clikit Require Import Model.Flags Model.Format Model.Parser Model.Resolver Model.Tokenizer Model.Switches Model.RunLine
+  Proofs.RunLineLemmas Proofs.RunLineTraceLemmas.
+
+(* the earlier theorems carry over: with the io built and the line resolved, the whole run IS Run.run on the outcome of
+   the handler applied to the resolved arguments, and the invocations logged are as many as its call counter says *)
+Theorem whole_run_extends_run : forall (A : Type) catch ok quiet debug (a : A) ls h,
+  let r := run_cmdline catch ok quiet debug None (inl a) ls h in
+  let r0 := run catch debug ok ls (h a) in
+  l_end r = r_end r0 /\ length (l_calls r) = r_handler_calls r0 /\ l_reported r = r_reported r0 /\ l_simple r = r_simple r0
+  /\ l_printed r = r_reported r0 && negb quiet.
+Proof. exact @run_line_is_run. Qed.
+Print Assumptions whole_run_extends_run.
+
+(* "returns an integer status in 0..255 without raising": WHICHEVER step fails - the io factory, the resolution of the
+   line, a listener, the handler, int(status) *)
+Theorem whole_run_status : forall (A : Type) quiet debug io (rs : A + exn) ls h,
+  exists s, l_end (run_cmdline true true quiet debug io rs ls h) = Status s /\ (0 <= s <= 255)%Z.
+Proof. exact @line_status_lemma. Qed.
+Print Assumptions whole_run_status.
+
+(* "The handler of the selected command is invoked exactly once with the arguments parsed for that command": the log is
+   exactly [a] for the a the resolver gave - whatever the handler does with it, whatever the flags *)
+Theorem handler_invoked_once_with_resolved_args : forall (A : Type) catch ok quiet debug (a : A) ls h,
+  listeners_pass ls -> l_calls (run_cmdline catch ok quiet debug None (inl a) ls h) = [a].
+Proof. exact @calls_resolved. Qed.
+Print Assumptions handler_invoked_once_with_resolved_args.
+Theorem handler_not_invoked_when_a_listener_decides : forall (A : Type) catch ok quiet debug (a : A) ls h,
+  ~ listeners_pass ls -> l_calls (run_cmdline catch ok quiet debug None (inl a) ls h) = [].
+Proof. exact @calls_none_listener. Qed.
+Print Assumptions handler_not_invoked_when_a_listener_decides.
+Theorem no_handler_when_io_creation_fails : forall (A : Type) catch ok quiet debug e (rs : A + exn) ls h,
+  l_calls (run_cmdline catch ok quiet debug (Some e) rs ls h) = [].
+Proof. exact @calls_none_io. Qed.
+Print Assumptions no_handler_when_io_creation_fails.
+Theorem no_handler_when_resolution_fails : forall (A : Type) catch ok quiet debug e ls h,
+  l_calls (run_cmdline (A:=A) catch ok quiet debug None (inr e) ls h) = [].
+Proof. exact @calls_none_resolution. Qed.
+Print Assumptions no_handler_when_resolution_fails.
+(* "and no other handler runs": in every case the log is empty or the one invocation with the resolved arguments *)
+Theorem no_other_invocation : forall (A : Type) catch ok quiet debug io (rs : A + exn) ls h,
+  l_calls (run_cmdline catch ok quiet debug io rs ls h) = [] \/
+  exists a, io = None /\ rs = inl a /\ listeners_pass ls /\ l_calls (run_cmdline catch ok quiet debug io rs ls h) = [a].
+Proof. exact @calls_at_most_resolved. Qed.
+Print Assumptions no_other_invocation.
+
+(* the steps before handling.  Resolution fails (unknown command or option, too many arguments, a value of the wrong
+   type, a failing resolver): status 1 and the report - the simple one for library errors; printed unless the io is quiet *)
+Theorem resolution_failure_reported : forall (A : Type) quiet debug e ls h, e_keyboard e = false ->
+  run_cmdline (A:=A) true true quiet debug None (inr e) ls h
+  = {| l_end := Status 1; l_calls := []; l_reported := true; l_simple := e_clikit e; l_printed := negb quiet |}.
+Proof. exact @resolution_failure_lemma. Qed.
+Print Assumptions resolution_failure_reported.
+(* the io factory fails: reported on the preliminary io, which no switch silences *)
+Theorem io_failure_reported : forall (A : Type) quiet debug e (rs : A + exn) ls h, e_keyboard e = false ->
+  run_cmdline true true quiet debug (Some e) rs ls h
+  = {| l_end := Status 1; l_calls := []; l_reported := true; l_simple := e_clikit e; l_printed := true |}.
+Proof. exact @io_failure_lemma. Qed.
+Print Assumptions io_failure_reported.
+Theorem early_keyboard_interrupt_status : forall (A : Type) catch ok quiet debug io (rs : A + exn) e ls h,
+  (io = Some e \/ (io = None /\ rs = inr e)) -> e_keyboard e = true ->
+  run_cmdline catch ok quiet debug io rs ls h
+  = {| l_end := Status 1; l_calls := []; l_reported := false; l_simple := false; l_printed := false |}.
+Proof. exact @early_keyboard_lemma. Qed.
+Print Assumptions early_keyboard_interrupt_status.
+(* "printed": rendered, and the io in force lets it through *)
+Theorem report_printed_unless_quiet : forall (A : Type) catch ok quiet debug io (rs : A + exn) ls h,
+  l_printed (run_cmdline catch ok quiet debug io rs ls h)
+  = l_reported (run_cmdline catch ok quiet debug io rs ls h) && (match io with Some _ => true | None => negb quiet end).
+Proof. exact @printed_lemma. Qed.
+Print Assumptions report_printed_unless_quiet.
+
+(* the application.  What the default resolver hands over - and so what the handler is invoked with - are the arguments
+   the selected command's format parses from the very line of the run, with that command's own leniency *)
+Theorem handler_given_the_arguments_parsed_for_the_command : forall catch ok ap toks ls h path f x,
+  resolve ap toks = Ok (path, f, x) -> listeners_pass ls ->
+  l_calls (run_app catch ok ap None RDefault toks ls h) = [(path, f, x)]
+  /\ exists b, f = b_fmt b /\ parse (b_fmt b) (b_lenient b) toks = Ok x.
+Proof. exact handler_args_lemma. Qed.
+Print Assumptions handler_given_the_arguments_parsed_for_the_command.
+(* a resolver of one's own that hands other tokens to the default one: the arguments parsed from THOSE, not a re-parse *)
+Theorem handler_given_what_a_custom_resolver_resolved : forall catch ok ap toks toks' ls h path f x,
+  resolve ap toks' = Ok (path, f, x) -> listeners_pass ls ->
+  l_calls (run_app catch ok ap None (RDelegate toks') toks ls h) = [(path, f, x)].
+Proof. exact handler_args_delegate. Qed.
+Print Assumptions handler_given_what_a_custom_resolver_resolved.
+Theorem unresolved_line_reported : forall ap toks ls h k, resolve ap toks = Err k ->
+  run_app true true ap None RDefault toks ls h
+  = {| l_end := Status 1; l_calls := []; l_reported := true; l_simple := e_clikit (exn_of_kind k); l_printed := negb (line_quiet toks) |}.
+Proof. exact unresolved_line_lemma. Qed.
+Print Assumptions unresolved_line_reported.
+Theorem application_run_status : forall ap io rv toks ls h,
+  exists s, l_end (run_app true true ap io rv toks ls h) = Status s /\ (0 <= s <= 255)%Z.
+Proof. exact app_status_lemma. Qed.
+Print Assumptions application_run_status.
+(* the lines this model speaks about are lines on which C09's summary says "that command's handler runs" *)
+Theorem whole_run_lines_are_handler_lines : forall ap toks path f x,
+  in_domain ap RDefault toks = true -> resolve ap toks = Ok (path, f, x) ->
+  sm_action (run_summary false ap toks) = AHandler path.
+Proof. exact in_domain_handler. Qed.
+Print Assumptions whole_run_lines_are_handler_lines.
+
+(* the renderer discharged for the whole run as well *)
+Theorem whole_run_status_with_renderer : forall (A : Type) sty c o x sols simple quiet debug io (rs : A + exn) ls h,
+  out_ok sty o -> resolvable sty st_error -> resolvable sty st_b ->
+  (TraceRenderLemmas.decorated o = true -> inputs_ne c x /\ Forall sol_ne sols) ->
+  exists s, l_end (run_cmdline true (report_ok c o x sols simple) quiet debug io rs ls h) = Status s /\ (0 <= s <= 255)%Z.
+Proof. exact @line_status_rendered. Qed.
+Print Assumptions whole_run_status_with_renderer.
